@@ -54,6 +54,7 @@ type multiArgs struct {
 	HubFirst bool        `json:"hub_first,omitempty"` // the hub entry precedes the other include entries
 	Wd       string      `json:"wd"`
 	Off      bool        `json:"off,omitempty"`
+	Model    bool        `json:"model,omitempty"` // second entry point: loader.LoadModelWithContext (the dictionary), not LoadWithContext
 }
 
 // a registered remote loader: accepts only its own scheme, which no input uses
@@ -266,14 +267,21 @@ func realMulti(raw json.RawMessage) any {
 		}
 	}
 	var captured *loader.Options
-	p, err := loader.LoadWithContext(context.Background(), details, func(o *loader.Options) {
+	optFn := func(o *loader.Options) {
 		o.SetProjectName("c12", true)
 		o.ResolvePaths = !a.Off
 		o.SkipConsistencyCheck = true
 		o.SkipResolveEnvironment = true
 		o.ResourceLoaders = mine
 		captured = o
-	})
+	}
+	var p *types.Project
+	var dict map[string]any
+	if a.Model {
+		dict, err = loader.LoadModelWithContext(context.Background(), details, optFn)
+	} else {
+		p, err = loader.LoadWithContext(context.Background(), details, optFn)
+	}
 	// aliasing: what the options / the caller's slice hold after the load, and what they must hold
 	wantOpts := []string{}
 	for i := 0; i < a.Remotes; i++ {
@@ -307,12 +315,21 @@ func realMulti(raw json.RawMessage) any {
 	if err != nil {
 		return map[string]any{"err": core.ScrubErr(err, root), "root": root, "home": home, "obs": sc.obs, "alias": scrub(alias)}
 	}
-	b, err := p.MarshalJSON()
-	if err != nil {
-		return map[string]any{"bad": "marshal: " + err.Error()}
-	}
 	var tree map[string]any
-	json.Unmarshal(b, &tree)
+	if a.Model {
+		// the dictionary as the loader returns it, through JSON so that every container is generic
+		b, err := json.Marshal(dict)
+		if err != nil {
+			return map[string]any{"bad": "marshal: " + err.Error()}
+		}
+		json.Unmarshal(b, &tree)
+	} else {
+		b, err := p.MarshalJSON()
+		if err != nil {
+			return map[string]any{"bad": "marshal: " + err.Error()}
+		}
+		json.Unmarshal(b, &tree)
+	}
 	for i, u := range a.Units {
 		sc.obs[i].Got, sc.obs[i].Frame = c12ExtractN(tree, u.Attr, i)
 	}
@@ -493,6 +510,11 @@ func runC12Multi(ctx *core.Ctx) {
 		if a.Spare > 0 {
 			ctx.Count("multi:spare-capacity")
 		}
+		if a.Model {
+			ctx.Count("multi:entry=LoadModelWithContext")
+		} else {
+			ctx.Count("multi:entry=LoadWithContext")
+		}
 	}
 	k := 0
 	mk := func(pat []string, absMask int) multiArgs {
@@ -527,6 +549,7 @@ func runC12Multi(ctx *core.Ctx) {
 				a.HubAbs = k%3 == 0
 				a.HubFirst = k%2 == 0
 				a.Off = k%5 == 0
+				a.Model = k%7 == 0
 				add(a, "exhaustive")
 			}
 		}
@@ -548,6 +571,7 @@ func runC12Multi(ctx *core.Ctx) {
 		a.Remotes = rng.Intn(4)
 		a.Spare = []int{0, 0, 1, 3}[rng.Intn(4)]
 		a.HubAbs, a.HubFirst, a.Off = rng.Intn(3) == 0, rng.Intn(2) == 0, rng.Intn(5) == 0
+		a.Model = rng.Intn(3) == 0
 		a.Hub = []string{"hub", "h/u", "../hubsib"}[rng.Intn(3)]
 		add(a, "random")
 	}
